@@ -17,6 +17,8 @@ def handle (st : DState) (j : Json) : DState × Json :=
   | .str "branch" => (st, branchOp j)
   | .str "mf" => (st, multiformOp j)
   | .str "export" => (st, exportOp j)
+  | .str "hist" => (st, histOp j)
+  | .str "grouping" => (st, groupingOp j)
   | .str "exp_pauliword" => (st, expPauliwordOp j)
   | .str "exp_qubitop" => (st, expQubitOp j)
   | .str "atoms" =>
